@@ -1662,6 +1662,17 @@ class MatrixBase:
         """Duplicate this matrix."""
         raise NotImplementedError
 
+    def _fresh_copy(self) -> Self:
+        """Duplicate this matrix into a new object of the same type, even if frozen.
+
+        FrozenMatrix.copy() returns the matrix itself, which must never be passed to _mat_mul().
+        """
+        return self._from_raw(
+            self._aa, self._ab, self._ac,
+            self._ba, self._bb, self._bc,
+            self._ca, self._cb, self._cc,
+        )
+
     @classmethod
     def from_pitch(cls, pitch: float) -> Self:
         """Return the matrix representing a pitch rotation (Y axis)."""
@@ -2065,11 +2076,11 @@ class MatrixBase:
 
     def __matmul__(self, other: 'MatrixBase | AngleBase') -> Self:
         if isinstance(other, MatrixBase):
-            mat = self.copy()
+            mat = self._fresh_copy()
             mat._mat_mul(other)
             return mat
         elif isinstance(other, AngleBase):
-            mat = self.copy()
+            mat = self._fresh_copy()
             mat._mat_mul(Py_Matrix.from_angle(other))
             return mat
         else:
@@ -2103,7 +2114,7 @@ class MatrixBase:
             cls = type(other)
             return mat._to_angle(cls.__new__(cls))
         elif isinstance(other, MatrixBase):
-            mat = other.copy()
+            mat = other._fresh_copy()
             mat._mat_mul(self)
             return mat
         else:
